@@ -282,6 +282,11 @@ func (sq *SyncQueue) processNextWorkItem() bool {
 
 func (sq *SyncQueue) ResourceEventHandler(scheme *runtime.Scheme) cache.ResourceEventHandler {
 	enqueue := func(action string, obj interface{}) {
+		// a deletion the informer only learned of by relisting arrives as a tombstone, which is not a
+		// runtime.Object itself: unwrap it first, or the deletion is never processed
+		if tombstone, ok := obj.(cache.DeletedFinalStateUnknown); ok {
+			obj = tombstone.Obj
+		}
 		runtimeObj, ok := obj.(runtime.Object)
 		if !ok {
 			return
